@@ -16,7 +16,7 @@ def _delegated_cases(tier, r):
   mod = importlib.import_module('harness.props.C05')
   n = 0
   for tag, case in mod.cases(tier, r):
-    if not case.get('guard'):
+    if not case.get('guard') and not case.get('species_stage'):
       n += 1
       yield 'via_C05', {'delegate': 'C05', 'case': case}
       if n >= (60 if tier == 'quick' else 600):
